@@ -331,15 +331,15 @@ theorem shiftTail_spec (E : Env α) {base : Nat} {h : Heap κ α} (hb : base ≤
     exact frame_write_nil hb _ _
 
 /-- `Mesh.Append` as it is now writes only into arrays it allocated itself, and returns a valid mesh -/
-theorem appendCopy_spec (E : Env α) {h h' : Heap κ α} {m o r : MeshRep} {base : Nat} (hb : base ≤ h.arrays.length)
-    (hr : appendCopy E h m o = some (h', r)) : Frame base h h' ∧ r.Valid h' := by
+theorem appendCopy_spec (E : Env α) {h h' : Heap κ α} {m o r : MeshRep} {aLen bLen : Nat} {base : Nat} (hb : base ≤ h.arrays.length)
+    (hr : appendCopy E h m o aLen bLen = some (h', r)) : Frame base h h' ∧ r.Valid h' := by
   unfold appendCopy at hr
   split at hr
   · cases hr
   · simp only [Option.some.injEq, Prod.mk.injEq] at hr
     obtain ⟨rfl, rfl⟩ := hr
-    obtain ⟨fm, vm⟩ := appendMaps_spec E (attrLen h m) (attrLen h o) m.maps o.maps hb
-    generalize appendMaps E false (attrLen h m) (attrLen h o) h m.maps o.maps = rm at fm vm ⊢
+    obtain ⟨fm, vm⟩ := appendMaps_spec E aLen bLen m.maps o.maps hb
+    generalize appendMaps E false aLen bLen h m.maps o.maps = rm at fm vm ⊢
     -- indices
     have f2 := frame_alloc (κ := κ) fm.base_le' (List.replicate (m.indices.len + o.indices.len) E.zero)
     have ft0 : Fresh base (⟨rm.1.arrays.length, 0, 0, m.indices.len + o.indices.len⟩ : Slice) := Or.inl fm.base_le'
@@ -361,7 +361,7 @@ theorem appendCopy_spec (E : Env α) {h h' : Heap κ α} {m o r : MeshRep} {base
     obtain ⟨f7, fu2, vu2⟩ := goAppend_spec E f6.base_le' fu1 vu1 (u1.1.read o.materials)
     generalize goAppend E _ _ _ = u2 at f7 fu2 vu2 ⊢
     have vt2' : t2.2.Valid u2.1 := vt2.mono (Nat.le_trans f5.size_le (Nat.le_trans f6.size_le f7.size_le))
-    obtain ⟨f8, hsz⟩ := shiftTail_spec E f7.base_le' ft2 vt2' m.indices.len (attrLen h m)
+    obtain ⟨f8, hsz⟩ := shiftTail_spec E f7.base_le' ft2 vt2' m.indices.len aLen
     have fall := ((((((fm.trans f2).trans f3).trans f4).trans f5).trans f6).trans f7).trans f8
     refine ⟨fall, ?_, ?_, ?_⟩
     · exact vt2'.mono (Nat.le_of_eq hsz.symm)
@@ -491,7 +491,7 @@ theorem apply_spec (E : Env α) {s : State κ α} (vs : s.Valid) {op : Op κ α}
     simp only [List.mem_singleton] at hx
     subst hx
     exact ⟨vr.1, vq.2.1, vr.2.2⟩
-  | toPointCloud m pt =>
+  | toPointCloud m pt n =>
     simp only [Op.apply, Option.bind_eq_bind, Option.bind_eq_some_iff, Option.pure_def] at ha
     obtain ⟨r, hr, ha⟩ := ha
     have vr := vs r (List.mem_of_getElem? hr)
@@ -505,7 +505,7 @@ theorem apply_spec (E : Env α) {s : State κ α} (vs : s.Valid) {op : Op κ α}
       exact vr
     · simp only [Option.some.injEq, Prod.mk.injEq] at ha
       obtain ⟨rfl, rfl⟩ := ha
-      obtain ⟨f1, _, v1⟩ := allocSlice_spec (κ := κ) E hb ((List.range (attrLen s.heap r)).map E.ident) 0
+      obtain ⟨f1, _, v1⟩ := allocSlice_spec (κ := κ) E hb ((List.range n).map E.ident) 0
       refine ⟨f1, ?_⟩
       intro x hx
       simp only [List.mem_singleton] at hx
@@ -594,16 +594,16 @@ theorem apply_spec (E : Env α) {s : State κ α} (vs : s.Valid) {op : Op κ α}
     simp only [Op.apply, Option.bind_eq_bind, Option.bind_eq_some_iff, Option.pure_def, Option.some.injEq, Prod.mk.injEq] at ha
     obtain ⟨r, hr, rfl, rfl⟩ := ha
     exact ⟨Frame.refl hb, fun x hx => by simp at hx⟩
-  | append m o =>
+  | append m o aLen bLen =>
     simp only [Op.apply, Option.bind_eq_bind, Option.bind_eq_some_iff, Option.pure_def, Option.some.injEq, Prod.mk.injEq] at ha
     obtain ⟨r, hr, q, hq, x, hx, rfl, rfl⟩ := ha
-    obtain ⟨f, v⟩ := appendCopy_spec E hb (show appendCopy E s.heap r q = some (x.1, x.2) from hx)
+    obtain ⟨f, v⟩ := appendCopy_spec E hb (show appendCopy E s.heap r q aLen bLen = some (x.1, x.2) from hx)
     refine ⟨f, ?_⟩
     intro y hy
     simp only [List.mem_singleton] at hy
     subst hy
     exact v
-  | appendOld m o => simp [Op.current] at hc
+  | appendOld m o aLen bLen => simp [Op.current] at hc
 
 end maps2
 
